@@ -336,6 +336,27 @@ def shrink(c):
         yield dict(c, depth=c["depth"] - 1)
 
 
+# functions of the implementation this property is anchored in: their line coverage under the correspondence cases is
+# measured on the staged copy and reported in the evidence (implementation_line_coverage)
+ANCHORS = [
+    "datascope/utility/add.py:AValue.__init__",
+    "datascope/utility/add.py:AValue._clip",
+    "datascope/utility/add.py:AValue.__index__",
+    "datascope/utility/add.py:AValue.__add__",
+    "datascope/utility/add.py:AValue.__sub__",
+    "datascope/utility/add.py:ADD.__call__",
+    "datascope/utility/add.py:ADD.restrict",
+    "datascope/utility/add.py:ADD.sum",
+    "datascope/utility/add.py:ADD.modelcount",
+    "datascope/utility/add.py:ADD.construct_tree",
+    "datascope/utility/add.py:ADD.construct_chain",
+    "datascope/utility/add.py:ADD.concatenate",
+    "datascope/utility/add.py:ADD.stack",
+    "datascope/importance/oracle.py:ATally._clip",
+    "datascope/importance/oracle.py:ATally.__index__",
+    "datascope/importance/oracle.py:ATally.domain",
+]
+
 MANIFEST = {
     "text": "Proof: C10_avalue_add/_sub (component-wise, invalid exactly when a bound is left or an addend is invalid), "
             "C10_add_comm/_assoc, C10_bounds_downward_closed, C10_index_bijective (mixed-radix and tally-rank indices "
